@@ -257,6 +257,41 @@ fn iso(t: &[&str]) -> IsoDateTime {
     IsoDateTime::new(date, time).unwrap()
 }
 
+/// A slice of the real zones for the properties that are about wall-clock <-> instant conversion on any rule set
+/// (C13): local readings, offsets and zoned strings of forty well-known zones, the era before the first transition
+/// included.
+pub fn generate_slice(rng: &mut Rng, thorough: bool) -> Vec<String> {
+    const ZONES: [&str; 40] = [
+        "America/New_York", "America/Los_Angeles", "America/Chicago", "America/Sao_Paulo", "America/St_Johns", "America/Havana",
+        "America/Caracas", "America/Toronto", "America/Mexico_City", "America/Argentina/Buenos_Aires", "Europe/London", "Europe/Berlin",
+        "Europe/Dublin", "Europe/Moscow", "Europe/Lisbon", "Europe/Istanbul", "Europe/Paris", "Africa/Cairo", "Africa/Casablanca",
+        "Africa/Monrovia", "Africa/Johannesburg", "Asia/Tokyo", "Asia/Kolkata", "Asia/Kathmandu", "Asia/Tehran", "Asia/Dubai",
+        "Asia/Shanghai", "Asia/Seoul", "Asia/Jerusalem", "Asia/Gaza", "Australia/Sydney", "Australia/Lord_Howe", "Australia/Adelaide",
+        "Pacific/Auckland", "Pacific/Apia", "Pacific/Kiritimati", "Pacific/Chatham", "Antarctica/Troll", "Atlantic/Azores", "UTC",
+    ];
+    let all = generate(rng, false);
+    let cap = if thorough { 60_000 } else { 12_000 };
+    let mut v: Vec<String> = all
+        .into_iter()
+        .filter(|l| {
+            let mut it = l.split(' ');
+            let op = it.next().unwrap_or("");
+            let zone = it.next().unwrap_or("");
+            matches!(op, "tzdb_loc" | "tzdb_off" | "tzdb_zstr" | "tzdb_istr" | "tzdb_offns") && ZONES.contains(&zone)
+        })
+        .collect();
+    // keep every local-reading and string line, thin the offset lines down to the cap
+    let keep_all = v.iter().filter(|l| !l.starts_with("tzdb_off ")).count();
+    if v.len() > cap {
+        let offs = v.iter().filter(|l| l.starts_with("tzdb_off ")).count();
+        let room = cap.saturating_sub(keep_all).max(1000);
+        let step = (offs / room).max(1);
+        let mut k = 0usize;
+        v.retain(|l| { if l.starts_with("tzdb_off ") { k += 1; k % step == 0 } else { true } });
+    }
+    v
+}
+
 pub fn eval(t: &[&str]) -> Option<String> {
     match t[0] {
         "tzdb_off" => {
